@@ -123,7 +123,8 @@ Inductive pildpi :=
 
 Inductive pilmeta :=
   | Unidentified                                       (* PIL.Image.open raises *)
-  | Meta (fmt : option str) (w h : Z) (dpi : pildpi).
+  | Meta (fmt : option str) (w h : Z) (dpi : pildpi)
+         (xres : bool).     (* tag 282 (XResolution) is among the tags Pillow read (tag_v2) *)
 
 Record image := mkImage { i_blob : blob; i_meta : pilmeta }.
 
@@ -143,25 +144,57 @@ Definition normalize_pil_dpi (d : pildpi) : res (Z * Z) :=
   | PTuple x y => bind (int_dpi x) (fun a => bind (int_dpi y) (fun b => Ok (a, b)))
   end.
 
+(** Image._pil_props: for the listed (format, tag) pairs the dpi entry is dropped when the
+    tag is absent -- a TIFF without XResolution, for which Pillow fills in (1, 1) *)
+Definition dpi_drop_rules : list (str * N) :=
+  [ ([84; 73; 70; 70]%N, 282%N) ].                  (* TIFF, 282 *)
+
+Definition fmt_is (fmt : option str) (f : str) : bool :=
+  match fmt with Some g => str_eqb g f | None => false end.
+
+Definition eff_dpi (fmt : option str) (d : pildpi) (xres : bool) : pildpi :=
+  if existsb (fun r => fmt_is fmt (fst r) && N.eqb (snd r) 282 && negb xres) dpi_drop_rules
+  then PNoTuple else d.
+
 Definition meta_dpi (m : pilmeta) : res (Z * Z) :=
   match m with
   | Unidentified => Err OtherErr
-  | Meta _ _ _ d => normalize_pil_dpi d
+  | Meta f _ _ d x => normalize_pil_dpi (eff_dpi f d x)
   end.
 
 Definition meta_px (m : pilmeta) : res (Z * Z) :=
   match m with
   | Unidentified => Err OtherErr
-  | Meta _ w h _ => Ok (w, h)
+  | Meta _ w h _ _ => Ok (w, h)
   end.
 
-(** Image.ext: the format must be a key of the map, else ValueError *)
-Definition image_ext (m : pilmeta) : res str :=
+(** Image.ext, the tests that precede the map lookup: (format, offset, bytes, extension) --
+    when Pillow names the format and the blob carries those bytes at that offset the
+    extension is decided by the header: an enhanced metafile, which Pillow calls WMF *)
+Definition ext_special : list (str * nat * blob * str) :=
+  [ ([87; 77; 70]%N, 40%nat, [32; 69; 77; 70]%N, [101; 109; 102]%N) ].   (* WMF, 40, ' EMF', emf *)
+
+(** blob[off : off + len] *)
+Definition slice (b : blob) (off len : nat) : blob := firstn len (skipn off b).
+
+Fixpoint special_ext (f : str) (b : blob) (rules : list (str * nat * blob * str)) : option str :=
+  match rules with
+  | [] => None
+  | (g, off, magic, e) :: r =>
+      if str_eqb f g && str_eqb (slice b off (length magic)) magic then Some e
+      else special_ext f b r
+  end.
+
+(** Image.ext: header rules first, then the format must be a key of the map, else ValueError *)
+Definition image_ext (b : blob) (m : pilmeta) : res str :=
   match m with
   | Unidentified => Err OtherErr
-  | Meta None _ _ _ => Err ValueErr
-  | Meta (Some f) _ _ _ =>
-      match assoc f ext_map with Some e => Ok e | None => Err ValueErr end
+  | Meta None _ _ _ _ => Err ValueErr
+  | Meta (Some f) _ _ _ _ =>
+      match special_ext f b ext_special with
+      | Some e => Ok e
+      | None => match assoc f ext_map with Some e => Ok e | None => Err ValueErr end
+      end
   end.
 
 (** Image.content_type: image_content_types[ext], KeyError when missing *)
@@ -340,7 +373,7 @@ Section Store.
 
   (** ImagePart.new *)
   Definition new_image_part (ps : list part) (im : image) : res part :=
-    bind (image_ext (i_meta im)) (fun e =>
+    bind (image_ext (i_blob im) (i_meta im)) (fun e =>
     bind (next_image_partname (map p_name ps) e) (fun nm =>
     bind (ext_content_type e) (fun ct =>
     Ok (mkPart nm ct (i_blob im) true true (i_meta im))))).
